@@ -179,6 +179,10 @@ class Gen:
             op.update(m="IPPrefix", v={"t": "ipnet", "ip": pip, "mask": pmask})
         elif k in ("AnErr", "Err"):
             op.update(m=k, v=dict({"t": "error", "s": b64(self.bytes_())}, **self.err_kind(kname, keyed)))
+            if not keyed and r.random() < 0.35:
+                # an array element that is a nil error, or an error interface holding a nil pointer: the element "null", with its
+                # separator like any other element
+                op["v"] = {"t": "error", "nil": True} if r.random() < 0.4 else {"t": "error", "ek": "nilptr"}
         return op
 
     def err_kind(self, kname, keyed=True, elements=False):
